@@ -63,11 +63,8 @@ pub fn rpc(sim: &mut Sim, method: &str, params: Value) -> Option<Result<Value, V
             Some(r)
         }
         Err(u) => {
-            let mut o = std::mem::take(&mut sim.oracle);
-            o.unwind_ctx = Some(format!("rpc {}", method));
-            o.on_unwind(sim, "rpc", None, &u);
-            sim.oracle = o;
-            sim.stop = true;
+            sim.oracle.unwind_ctx = Some(format!("rpc {}", method));
+            sim.handle_unwind("rpc", None, u);
             None
         }
     }
